@@ -289,7 +289,11 @@ func (c07) Run(c *run.Ctx, phase, idx int) {
 		// packets are read from another stream inside the reader's Read
 		{
 			other := genFrame(r, gen.Small)
-			for _, chunk := range []int{1, 3, 0} {
+			chunks := []int{1, 3, 0}
+			if n > 70000 {
+				chunks = []int{4096, 0} // byte-sized reads over megabytes are the harness's cost, not the library's
+			}
+			for _, chunk := range chunks {
 				rr := &mon.ReentrantReader{Data: f.Bytes, Chunk: chunk, Inner: func() { mon.Read(bytes.NewReader(other.Bytes)) }}
 				c.Current(func() string {
 					return fmt.Sprintf("ReadPacket frame=%s reentrant-reader chunk=%d other=%s", hexClip(f.Bytes, 512), chunk, hexClip(other.Bytes, 256))
@@ -306,7 +310,11 @@ func (c07) Run(c *run.Ctx, phase, idx int) {
 			}
 		}
 		// a reader that also has Len(), meaning "staged right now"
-		for _, chunk := range []int{1, 5, 64} {
+		stagedChunks := []int{1, 5, 64}
+		if n > 70000 {
+			stagedChunks = []int{64, 4096}
+		}
+		for _, chunk := range stagedChunks {
 			st := mon.NewStagedReader(f.Bytes, chunk)
 			c.Current(func() string {
 				return fmt.Sprintf("ReadPacket frame=%s staged-reader chunk=%d", hexClip(f.Bytes, 512), chunk)
